@@ -227,7 +227,7 @@ package shellfuncsfile
 //@   on call uu.AppendEncode(dst, src) (out): assert(nClean == 1 && len(dst) == 0 && string(src) == perl && nEnc == 0, "uuencodes_exactly_the_cleaned_program_text"); enc = out; nEnc++
 //@   on call strings.TrimSpace(x) (y): assert(nEnc == 1 && x == string(enc) && nTrim == 0, "trailing_newline_of_the_encoding_removed"); t1 = y; nTrim++
 //@   on call strings.ReplaceAll(a, o, n) (y): if nRepl == 0 { assert(nTrim == 1 && a == t1 && o == singleQuote && n == safeSingleQuote, "single_quotes_become_s") ; r1 = y } else { assert(nRepl == 1 && a == r1 && o == backslash && n == safeBackslash, "backslashes_become_b"); r2 = y }; nRepl++
-//@   on enter template.Template.Execute(t, w, d): assert(fresh(&ret), "function_text_is_built_in_a_buffer_of_its_own_call")
+//@   on enter template.Template.Execute(t, w, d): assert(fresh(w), "function_text_is_built_in_a_buffer_of_its_own_call")
 //@   on call template.Template.Execute(t, w, d) (e): assert(t == perlTemplate && nRepl == 2 && mapStr(d, "FuncName") == strings.TrimSuffix(filepath.Base(name), filepath.Ext(name)) && mapStr(d, "LeadComments") == lead && mapStr(d, "PerlUU") == r2 && boxes(w, ret), "template_gets_name_lead_comments_and_encoded_text"); execErr = e != nil; nExec++
 //@   ensures read_error_reported: imp(rdErr, err != nil)
 //@   ensures uniform_template: imp(!rdErr && !execErr, err == nil && nExec == 1)
